@@ -201,6 +201,9 @@ enum Res {
 
 type Model = [Vec<u64>; 2];
 
+/// pushed onto every concat result; no list element has this key
+const CONCAT_MARK: u64 = 777_777;
+
 /// atomic operations only (First2 is split into gets by the recorder)
 fn model_apply(m: &mut Model, op: &Op, broken: bool) -> Res {
     match *op {
@@ -224,6 +227,8 @@ fn model_apply(m: &mut Model, op: &Op, broken: bool) -> Res {
         Op::Concat(x, y) => {
             let mut r = m[x as usize].clone();
             r.extend_from_slice(&m[y as usize]);
+            // the marker pushed onto the (new) result list
+            r.push(CONCAT_MARK);
             Res::Keys(r)
         }
         Op::Eq(x, y) => Res::Bool(m[x as usize] == m[y as usize]),
@@ -459,6 +464,8 @@ fn exec<E: RElem>(lists: &[List<E>; 2], thread: usize, op: Op, out: &mut Vec<HOp
         }),
         Op::Concat(x, y) => rec(op, &mut || {
             let r = lists[x as usize].concat(&lists[y as usize]);
+            // "a new list": the marker must show up in the result and nowhere else
+            r.push(E::make(CONCAT_MARK));
             Res::Keys(r.to_vec().iter().map(|e| e.key_of()).collect())
         }),
         Op::Eq(x, y) => rec(op, &mut || Res::Bool(lists[x as usize] == lists[y as usize])),
